@@ -423,6 +423,7 @@ type state struct {
 	propfail map[string][2]string // kind -> (size key, detail)
 	distinct map[string]bool
 	calls    int
+	lines    int // buses written to the case file (one line each)
 	nontriv  int
 	samples  []string
 }
@@ -482,6 +483,7 @@ func (s *state) run(b bspec) *big.Rat {
 	}
 	line := input + ";" + strings.Join(obs, "~")
 	fmt.Fprintln(s.w, line)
+	s.lines++
 	if len(b.more) > 0 {
 		s.hist["calls-per-bus/2+"]++
 	} else {
@@ -1051,11 +1053,20 @@ func main() {
 		}
 	}
 
-	s.w.Flush()
-	f.Close()
-	sf, _ := os.Create(out + ".summary")
+	// END marker: the driver refuses a case file without it (truncated / wrong file)
+	fmt.Fprintf(s.w, "END %d\n", s.lines)
+	if err := s.w.Flush(); err != nil {
+		panic(err)
+	}
+	if err := f.Close(); err != nil {
+		panic(err)
+	}
+	sf, err := os.Create(out + ".summary")
+	if err != nil {
+		panic(err)
+	}
 	sw := bufio.NewWriter(sf)
-	fmt.Fprintf(sw, "calls %d\nnontrivial %d\ndistinct %d\n", s.calls, s.nontriv, len(s.distinct))
+	fmt.Fprintf(sw, "calls %d\nlines %d\nnontrivial %d\ndistinct %d\n", s.calls, s.lines, s.nontriv, len(s.distinct))
 	keys := make([]string, 0, len(s.hist))
 	for k := range s.hist {
 		keys = append(keys, k)
@@ -1070,8 +1081,12 @@ func main() {
 	for _, l := range s.samples {
 		fmt.Fprintf(sw, "SAMPLE %s\n", l)
 	}
-	sw.Flush()
-	sf.Close()
+	if err := sw.Flush(); err != nil {
+		panic(err)
+	}
+	if err := sf.Close(); err != nil {
+		panic(err)
+	}
 }
 
 func atoi(x string) int {
